@@ -39,10 +39,10 @@ func (e *Engine) directObl(name string, props []string, ok bool, detail string) 
 }
 
 type initEntry struct {
-	key   string // constant key, printed
-	val   string // constant value or function name
-	isFn  bool
-	fn    *ssa.Function
+	key  string // constant key, printed
+	val  string // constant value or function name
+	isFn bool
+	fn   *ssa.Function
 }
 
 // readInitMap reconstructs a package-level map literal from the package initialiser's SSA.
